@@ -42,12 +42,13 @@ EVENTS = {
     'inc1': ('buf', b'include("bad1.conf")'), 'inc1f': ('file', b'incbad1.conf'),
     'inc2': ('buf', b'include("inc2.conf")'), 'incdq': ('buf', b'include("dqinc.conf")'),
     'incself': ('buf', b'include("self.conf")'), 'incmiss': ('buf', b'include("nope.conf")'), 'incdir': ('buf', b'include("d")'),
+    'okfp': ('fp', b'i = 6'), 'synfp': ('fp', b'i = ='),
     'oksecf': ('file', b'sec.conf'), 'incsecbad': ('buf', b'include("secbad.conf")'),     # a single section entered from a named source
     'reinit': ('reinit', None), 'switch': ('switch', None),
 }
-KEEP = ('ok', 'okf', 'oksecf', 'reinit', 'switch')     # events with a lasting, specified effect on the stores
+KEEP = ('ok', 'okf', 'okfp', 'oksecf', 'reinit', 'switch')     # events with a lasting, specified effect on the stores
 ORDER = ['ok', 'okf', 'syn', 'synf', 'dq', 'dqf', 'dq0', 'sq', 'sqf', 'cm', 'cmf', 'esc', 'range', 'inc1', 'inc1f', 'inc2', 'incdq',
-         'incself', 'incmiss', 'incdir', 'oksecf', 'incsecbad', 'reinit', 'switch']
+         'incself', 'incmiss', 'incdir', 'oksecf', 'incsecbad', 'okfp', 'synfp', 'reinit', 'switch']
 
 PROBES = {
     'P1-plain': b'i = 8 l += {2} m { x = 3 }',
@@ -55,6 +56,7 @@ PROBES = {
     'P3-include-full-depth': b'include("c1.conf")',
     'P4-error-with-diagnostics': b'i = 7\ns = {',
     'P5-error-inside-a-single-section': b'sec {\nx = bad }',
+    'P6-error-in-a-stream': b'\ni = 7\ns = {',          # parsed with cfg_parse_fp: its diagnostics name the stream, not an earlier source
 }
 
 
@@ -75,6 +77,8 @@ def history_lines(hist):
             lines.append('parse_buf %s %s' % (cur, enc(payload)))
         elif kind == 'file':
             lines.append('parse %s %s' % (cur, enc(payload)))
+        elif kind == 'fp':
+            lines.append('parse_fp %s %s' % (cur, enc(payload)))
         elif kind == 'reinit':
             lines.append('free %s' % cur)
             lines.append('init %s E8 0' % cur)
@@ -94,7 +98,8 @@ def key_case(hist):
 
 def fresh_probe_case(hist, pname):
     lines, cur = history_lines(hist)
-    return Case(fixture_lines() + lines + ['note probe', 'init C E8 0', 'parse_buf C ' + enc(PROBES[pname]), 'dump C 0', 'dump A 0', 'dump B 0',
+    via = 'parse_fp' if pname.startswith('P6') else 'parse_buf'
+    return Case(fixture_lines() + lines + ['note probe', 'init C E8 0', '%s C %s' % (via, enc(PROBES[pname])), 'dump C 0', 'dump A 0', 'dump B 0',
                                            'lexstate'], fork=True, horizon=20)
 
 
@@ -104,7 +109,8 @@ def live_probe_case(hist):
     return Case(fixture_lines() + lines + ['note probe', 'parse_buf %s %s' % (cur, enc(PROBES['P1-plain'])), 'dump %s 0' % cur, 'dump %s 0' % other,
                                            'parse_buf %s %s' % (other, enc(PROBES['P4-error-with-diagnostics'])), 'dump %s 0' % other,
                                            'parse_buf %s %s' % (cur, enc(PROBES['P3-include-full-depth'])), 'dump %s 0' % cur,
-                                           'parse_buf %s %s' % (cur, enc(PROBES['P5-error-inside-a-single-section']))], fork=True, horizon=20)
+                                           'parse_buf %s %s' % (cur, enc(PROBES['P5-error-inside-a-single-section'])),
+                                           'parse_fp %s %s' % (cur, enc(PROBES['P6-error-in-a-stream']))], fork=True, horizon=20)
 
 
 def after_note(res, note):
@@ -126,7 +132,7 @@ def observations(res, hist):
     want = 2   # two init answers
     for ev in hist:
         k = EVENTS[ev][0]
-        want += {'buf': 1, 'file': 1, 'reinit': 2, 'switch': 0}[k]
+        want += {'buf': 1, 'file': 1, 'fp': 1, 'reinit': 2, 'switch': 0}[k]
     seen = 0
     for idx, l in enumerate(res.lines):
         if l.startswith('r '):
@@ -204,7 +210,7 @@ def shard(sh):
             # they are those of the fresh process, file name and line included
             kd = max(i for i, l in enumerate(obs['live']) if l.startswith('dump '))
             tail = obs['live'][kd + 1:]
-            want = refs[('fresh', 'P5-error-inside-a-single-section')][1:-1]
+            want = refs[('fresh', 'P5-error-inside-a-single-section')][1:-1] + refs[('fresh', 'P6-error-in-a-stream')][1:-1]
             if tail != want:
                 st.violation('live-diagnostics-depend-on-history after %s' % hist[-1], obs['live#script'], '\n'.join(want), '\n'.join(tail))
         st.outcome('\n'.join(obs['live']))
